@@ -276,7 +276,7 @@ def loop (e : Env) : Nat → List Fiber → Nat → Int → List Nat → Outcome
   | 0, _, _, _, _ => .outOfFuel
   | fuel+1, fibers, bm, mval, calls =>
     if fibers.isEmpty then .done mval calls
-    else if fibers.length > 600 then .outOfFuel      -- the model gives up on fiber explosions (the C code errors at 1024)
+    else if fibers.length > 200 then .outOfFuel      -- the model gives up on fiber explosions (the C code errors at 1024)
     else
       match pass e bm 4000 (dedup fibers []) { kept := [], mval := mval, calls := calls } with
       | none => .outOfFuel
